@@ -49,9 +49,6 @@ def Helper.ConnectionWD.get_pre_fraction_along (fs : FloatSem F) (self : Obj F) 
 def Helper.ConnectionWD.get_post_fraction_along (fs : FloatSem F) (self : Obj F) : Res F :=
   (pFloat fs (attr self "post_fraction_along"))
 
-def Helper.ConnectionWD.get_delay_in_ms (fs : FloatSem F) (self : Obj F) : Res F :=
-  (pIfElse fs (pIn ['m', 's'] (attr self "delay")) (pFloat fs (pStrip (pDropRight 2 (attr self "delay")))) (pIfElse fs (pIn ['s'] (attr self "delay")) (pMulF fs (pFloat fs (pStrip (pDropRight 1 (attr self "delay")))) fs.thousand) pnone))
-
 def Helper.ElectricalConnection._get_cell_id (fs : FloatSem F) (self : Obj F) (id_string : Res F) : Res F :=
   (pInt fs (pFloat fs id_string))
 
@@ -231,7 +228,7 @@ def Helper.Population.get_size (fs : FloatSem F) (self : Obj F) : Res F :=
 
 def Helper.index : List (String × List String) :=
   [("Connection", ["_get_cell_id", "get_pre_cell_id", "get_post_cell_id", "get_pre_segment_id", "get_post_segment_id", "get_pre_fraction_along", "get_post_fraction_along"]),
-   ("ConnectionWD", ["_get_cell_id", "get_pre_cell_id", "get_post_cell_id", "get_pre_segment_id", "get_post_segment_id", "get_pre_fraction_along", "get_post_fraction_along", "get_delay_in_ms"]),
+   ("ConnectionWD", ["_get_cell_id", "get_pre_cell_id", "get_post_cell_id", "get_pre_segment_id", "get_post_segment_id", "get_pre_fraction_along", "get_post_fraction_along"]),
    ("ElectricalConnection", ["_get_cell_id", "get_pre_cell_id", "get_post_cell_id", "get_pre_segment_id", "get_post_segment_id", "get_pre_fraction_along", "get_post_fraction_along"]),
    ("ElectricalConnectionInstance", ["_get_cell_id", "get_pre_cell_id", "get_post_cell_id", "get_pre_segment_id", "get_post_segment_id", "get_pre_fraction_along", "get_post_fraction_along"]),
    ("ElectricalConnectionInstanceW", ["_get_cell_id", "get_pre_cell_id", "get_post_cell_id", "get_pre_segment_id", "get_post_segment_id", "get_pre_fraction_along", "get_post_fraction_along", "get_weight"]),
@@ -310,9 +307,6 @@ def Nml.ConnectionWD.get_pre_fraction_along (fs : FloatSem F) (self : Obj F) : R
 
 def Nml.ConnectionWD.get_post_fraction_along (fs : FloatSem F) (self : Obj F) : Res F :=
   (pFloat fs (attr self "post_fraction_along"))
-
-def Nml.ConnectionWD.get_delay_in_ms (fs : FloatSem F) (self : Obj F) : Res F :=
-  (pIfElse fs (pIn ['m', 's'] (attr self "delay")) (pFloat fs (pStrip (pDropRight 2 (attr self "delay")))) (pIfElse fs (pIn ['s'] (attr self "delay")) (pMulF fs (pFloat fs (pStrip (pDropRight 1 (attr self "delay")))) fs.thousand) pnone))
 
 def Nml.ElectricalConnection._get_cell_id (fs : FloatSem F) (self : Obj F) (id_string : Res F) : Res F :=
   (pInt fs (pFloat fs id_string))
@@ -493,7 +487,7 @@ def Nml.Population.get_size (fs : FloatSem F) (self : Obj F) : Res F :=
 
 def Nml.index : List (String × List String) :=
   [("Connection", ["_get_cell_id", "get_pre_cell_id", "get_post_cell_id", "get_pre_segment_id", "get_post_segment_id", "get_pre_fraction_along", "get_post_fraction_along"]),
-   ("ConnectionWD", ["_get_cell_id", "get_pre_cell_id", "get_post_cell_id", "get_pre_segment_id", "get_post_segment_id", "get_pre_fraction_along", "get_post_fraction_along", "get_delay_in_ms"]),
+   ("ConnectionWD", ["_get_cell_id", "get_pre_cell_id", "get_post_cell_id", "get_pre_segment_id", "get_post_segment_id", "get_pre_fraction_along", "get_post_fraction_along"]),
    ("ElectricalConnection", ["_get_cell_id", "get_pre_cell_id", "get_post_cell_id", "get_pre_segment_id", "get_post_segment_id", "get_pre_fraction_along", "get_post_fraction_along"]),
    ("ElectricalConnectionInstance", ["_get_cell_id", "get_pre_cell_id", "get_post_cell_id", "get_pre_segment_id", "get_post_segment_id", "get_pre_fraction_along", "get_post_fraction_along"]),
    ("ElectricalConnectionInstanceW", ["_get_cell_id", "get_pre_cell_id", "get_post_cell_id", "get_pre_segment_id", "get_post_segment_id", "get_pre_fraction_along", "get_post_fraction_along", "get_weight"]),
